@@ -84,10 +84,16 @@ func Discharge(o *Obligation, timeoutS int, allSolvers bool) *Result {
 	defer os.Remove(f.Name())
 	hasQuant := strings.Contains(q, "(forall ") || strings.Contains(q, "(exists ")
 	for i, s := range Solvers {
-		if s.Name == "cvc5" && !hasQuant && !allSolvers && i > 0 {
-			// cvc5 is only consulted for quantified goals unless asked
+		_ = hasQuant
+		to := timeoutS
+		if o.Kind == "cover" {
+			// vacuity guards: short budget, first solver only
+			if i > 0 {
+				break
+			}
+			to = 3
 		}
-		ans, out, secs := runSolver(s, timeoutS, f.Name())
+		ans, out, secs := runSolver(s, to, f.Name())
 		r.Seconds += secs
 		r.Solver, r.Answer, r.Output = s.Name, ans, out
 		want := o.Expect
@@ -105,6 +111,10 @@ func Discharge(o *Obligation, timeoutS int, allSolvers bool) *Result {
 		}
 	}
 	r.Status = "unknown"
+	if o.Kind == "cover" {
+		// a vacuity guard that no solver could decide is not a failed proof; it is reported as undecided
+		r.Status = "cover-undecided"
+	}
 	return r
 }
 
